@@ -3,7 +3,8 @@
 EXTENDS Naturals, Sequences, FiniteSets
 
 \* ---- line tokens ----
-NameVals == {"a", "b", "tab", "empty", "n128", "n129"}   \* "tab" = a name with an interior tab
+NameVals == {"a", "b", "tab", "empty", "n128", "n129"}   \* "tab" = a name with an interior tab; "b" is rendered as a name that
+                                                          \* contains the '=' separator several times, also at its end
 PubVals  == {"P1", "P2", "badpub"}
 PrivVals == {"K1", "badpriv"}
 Tokens ==
